@@ -94,7 +94,7 @@ Record agrees (k : stage) (s' : mstate) (pubs : list nat) (evs : list lev) (d : 
 }.
 
 Ltac dm := unfold drun, dbind, dret, then_, cell_at, inner_ref, take_inner, inner_duplicate, rd, st, emit, assign_move, write_move,
-  assign, write_, check_zeroed, clone_, is_buf, set_slots_d, set_out_d, buf_ptr; cbn [d_l d_slots d_pubs d_evs d_nid d_out dn_E dn_avail dn_owned dn_src denv_of].
+  assign, write_, store_mode, check_zeroed, clone_, is_buf, set_slots_d, set_out_d, buf_ptr; cbn [d_l d_slots d_pubs d_evs d_nid d_out dn_E dn_avail dn_owned dn_src denv_of].
 
 (** rewriting [lift (g_check ..)] on a state whose local part is [local_of k s] *)
 Lemma lift_check k n s sl pubs evs nid out : wf k s ->
@@ -137,6 +137,19 @@ Proof. unfold lift, get_index. cbn. rewrite app_nil_r. destruct l; reflexivity. 
 Lemma lift_buf_len E l sl pubs evs nid out :
   lift (buf_len E) (mkD l sl pubs evs nid out) = Some (e_len E, mkD l sl pubs evs nid out).
 Proof. unfold lift, buf_len, KernelM.ret. cbn. rewrite app_nil_r. destruct l; reflexivity. Qed.
+
+Lemma lift_uadd a b l sl pubs evs nid out : a + b < usize_max ->
+  lift (uadd a b) (mkD l sl pubs evs nid out) = Some (a + b, mkD l sl pubs evs nid out).
+Proof. intros H. unfold lift, uadd. cbn. rewrite (ltb_true _ _ H), app_nil_r. reflexivity. Qed.
+Lemma lift_usub a b l sl pubs evs nid out : b <= a ->
+  lift (usub a b) (mkD l sl pubs evs nid out) = Some (a - b, mkD l sl pubs evs nid out).
+Proof. intros H. unfold lift, usub. cbn. rewrite (leb_true _ _ H), app_nil_r. reflexivity. Qed.
+Lemma ptr_add_ok o i l sl pubs evs nid out : o + i <= length sl ->
+  ptr_add (LBuf o) i (mkD l sl pubs evs nid out) = Some (LBuf (o + i), mkD l sl pubs evs nid out).
+Proof. intros H. unfold ptr_add. cbn. rewrite (leb_true _ _ H). reflexivity. Qed.
+Lemma raw_parts_ok o n l sl pubs evs nid out : o + n <= length sl ->
+  raw_parts (LBuf o) n (mkD l sl pubs evs nid out) = Some (mkSl RBuf o n, mkD l sl pubs evs nid out).
+Proof. intros H. unfold raw_parts. cbn. rewrite (leb_true _ _ H). reflexivity. Qed.
 
 (** ** single items: [next_ref] / [next_ref_mut] / [next_ref_mut_init] = [grant_one] *)
 Section One.
@@ -194,6 +207,11 @@ Proof.
   unfold dret in *. exact H.
 Qed.
 End One'.
+
+Lemma pass_on_unit (m : DM unit) d : (v <~ m ;; dret tt) d = m d.
+Proof. unfold dbind, dret. destruct (m d) as [[[] d']|]; reflexivity. Qed.
+Lemma seq_unit (m : DM unit) d : (m ;;~ dret tt) d = m d.
+Proof. unfold dbind, dret. destruct (m d) as [[[] d']|]; reflexivity. Qed.
 
 (** wrappers that only pass a call on: the translated body is [v <~ callee ;; dret v] *)
 Lemma pass_on {A} (m : DM A) d : (v <~ m ;; dret v) d = m d.
@@ -402,3 +420,162 @@ Proof.
     + rewrite Ni. auto.
 Qed.
 End ExtractItem.
+
+(** ** [next_chunk] / [next_chunk_mut] = [grant]: the two raw slices are exactly the Model's [chunk] of the window, inside the allocation *)
+Lemma granted_le_len k n s : wf k s -> fst (check k n s) = true -> n <= mlen s.
+Proof.
+  intros [H1 H2 H3 H4 H5]. unfold check, refresh. destruct (n <=? ca (it_of k s)) eqn:C; cbn [fst].
+  - intros _. apply Nat.leb_le in C. lia.
+  - intros G. apply Nat.leb_le in G. unfold fresh, avail_of, pavail, dist in G. destruct k; cases; lia.
+Qed.
+
+Section Chunk.
+Variables (k : stage) (s : mstate) (src out : list cell) (n : nat).
+Hypothesis Hwf : wf k s.
+Local Notation E := (denv_of k s src).
+
+Definition grant_res (r : option (sl * sl)) (d : dst) : Prop :=
+  let '(s', (o, _)) := grant k n s in
+  agrees k s' [] [] d /\ d_out d = out /\
+  match r, o with
+  | Some (a, b), OSlices i h t =>
+      a = mkSl RBuf i (fst (chunk (mlen s) i n)) /\ b = mkSl RBuf 0 (snd (chunk (mlen s) i n)) /\
+      h = sub (slots s) (s_off a) (s_len a) /\ t = sub (slots s) (s_off b) (s_len b) /\
+      s_off a + s_len a <= length (slots s) /\ s_off b + s_len b <= length (slots s) /\ s_len a + s_len b = n
+  | None, ONone => True
+  | _, _ => False
+  end.
+
+Ltac chunk_tac :=
+  unfold view, grant_res, grant; dm; cbn [denv_of dn_E dn_avail dn_owned dn_src];
+  rewrite lift_check by exact Hwf; pose proof (ix_check k s Hwf n) as Hi;
+  pose proof (wf_check k n s Hwf) as Hwf1; pose proof (granted_le_len k n s Hwf) as Hn;
+  destruct (check k n s) as [g s1] eqn:Ck; cbn [fst snd] in *;
+  destruct (check_keeps_all k n s) as (A & B & Pb & Nd & Ow & Ix & Sc & Dt); rewrite Ck in *; cbn [snd] in *;
+  destruct Hwf as [W1 W2 W3 W4 W5];
+  destruct g; dm;
+  [ specialize (Hn eq_refl); rewrite lift_buf_len; dm; cbn [env_of e_len]; rewrite lift_get_index; dm; cbn [local_of l_index];
+    rewrite lift_uadd by lia; dm
+  | eexists _, _; split; [reflexivity|]; unfold ret; split; [|split]; [constructor; cbn; auto | reflexivity | exact I] ].
+
+Lemma chunk_facts : forall i, i < mlen s -> n <= mlen s -> length (slots s) = mlen s ->
+  let '(h, t) := chunk (mlen s) i n in i + h <= length (slots s) /\ 0 + t <= length (slots s) /\ h + t = n.
+Proof. intros i Hi Hn Hl. unfold chunk. cases; cbn; lia. Qed.
+
+Ltac mem_step :=
+  repeat (first [ rewrite lift_get_index | rewrite lift_uadd by lia | rewrite lift_usub by lia
+                | rewrite ptr_add_ok by lia | rewrite raw_parts_ok by lia ]; dm; cbn [local_of l_index]).
+
+(** the proofs do not depend on how the source spells the wrap test ([a + b >= len], [len <= a + b], [a + b < len] with swapped
+    branches ...): both cases of the test are decided by [lia] wherever a comparison occurs *)
+Ltac decide_cmps :=
+  repeat (match goal with
+  | |- context[?a <=? ?b] => first [bt (a <=? b) | bf (a <=? b)]
+  | |- context[?a <? ?b] => first [bt (a <? b) | bf (a <? b)]
+  | |- context[?a =? ?b] => first [replace (a =? b) with true by (symmetry; apply Nat.eqb_eq; lia) | replace (a =? b) with false by (symmetry; apply Nat.eqb_neq; lia)]
+  end; cbn [negb fst snd]).
+
+Ltac chunk_finish :=
+  unfold Seq.rd, chunk, geb, gtb;
+  match goal with HA : slots ?x = slots s, HB : mlen ?x = mlen s |- _ =>
+    rewrite ?HA, ?HB; destruct (Nat.le_gt_cases (mlen s) (ix (it_of k x) + n)) end;
+  decide_cmps; mem_step; decide_cmps; mem_step;
+  (eexists _, _; split; [reflexivity|]); unfold ret; (split; [|split]; [constructor; cbn; auto | reflexivity | ]);
+  cbn [fst snd s_off s_len empty_sl]; unfold empty_sl; decide_cmps; cbn [fst snd s_off s_len];
+  repeat split; try reflexivity; try lia; try (f_equal; lia).
+
+Theorem tie_next_chunk_mut : exists r d, drun (d_next_chunk_mut E n) (view k s out) = Some (r, d) /\ grant_res r d.
+Proof. unfold d_next_chunk_mut. chunk_tac. chunk_finish. Qed.
+
+Theorem tie_next_chunk : exists r d, drun (d_next_chunk E n) (view k s out) = Some (r, d) /\ grant_res r d.
+Proof. unfold d_next_chunk. chunk_tac. chunk_finish. Qed.
+End Chunk.
+
+Theorem tie_slice_wrappers k s src out n : wf k s ->
+  (exists r d, drun (d_get_workable_slice_exact (denv_of k s src) n) (view k s out) = Some (r, d) /\ grant_res k s out n r d) /\
+  (exists r d, drun (d_get_next_slices_mut (denv_of k s src) n) (view k s out) = Some (r, d) /\ grant_res k s out n r d) /\
+  (exists r d, drun (d_peek_slice (denv_of k s src) n) (view k s out) = Some (r, d) /\ grant_res k s out n r d).
+Proof.
+  intros Hwf. unfold d_get_workable_slice_exact, d_get_next_slices_mut, d_peek_slice, drun. rewrite !pass_on.
+  repeat split; [apply tie_next_chunk_mut | apply tie_next_chunk_mut | apply tie_next_chunk]; auto.
+Qed.
+
+(** ** the forms that first take a fresh look: [get_workable_slice_avail], [get_workable_slice_multiple_of], [peek_available] *)
+Lemma fresh_le_len k s : wf k s -> fresh k s <= mlen s.
+Proof. intros [H1 H2 H3 H4 H5]. unfold fresh, avail_of, pavail, dist. destruct k; cases; lia. Qed.
+
+Lemma wf_refresh k s : wf k s -> wf k (fst (refresh k s)).
+Proof.
+  intros Hwf. pose proof (fresh_le_len k s Hwf) as Hf. destruct Hwf as [H1 H2 H3 H4 H5].
+  unfold refresh. cbn [fst]. unfold set_ca, set_it.
+  constructor; unfold it_of in *; cbn [its mlen slots]; rewrite ?tget_tset_same; cbn [ix ca]; auto;
+  unfold succ_idx in *; cbn [pub hasW]; destruct k; auto.
+Qed.
+
+Lemma denv_refresh k s src : denv_of k (fst (refresh k s)) src = denv_of k s src.
+Proof. unfold denv_of, env_of, refresh, set_ca, set_it, succ_idx. cbn. destruct k; reflexivity. Qed.
+
+Lemma view_refresh k s out :
+  mkD (local_of k (fst (refresh k s))) (slots s) [] [] (nid s) out = view k (fst (refresh k s)) out.
+Proof. reflexivity. Qed.
+
+Section AvailForms.
+Variables (k : stage) (s : mstate) (src out : list cell).
+Hypothesis Hwf : wf k s.
+Local Notation E := (denv_of k s src).
+Local Notation s1 := (fst (refresh k s)).
+
+Theorem tie_get_workable_slice_avail :
+  exists r d, drun (d_get_workable_slice_avail E) (view k s out) = Some (r, d) /\
+    match fresh k s with
+    | 0 => r = None /\ agrees k s1 [] [] d /\ d_out d = out
+    | S _ => grant_res k s1 out (fresh k s) r d
+    end.
+Proof.
+  unfold d_get_workable_slice_avail, d_available, view. dm. cbn [denv_of dn_avail].
+  rewrite lift_avail by exact Hwf. dm.
+  destruct (fresh k s) eqn:F.
+  - dm. eexists _, _. split; [reflexivity|]. split; [reflexivity|]. split; [constructor; cbn; auto | reflexivity].
+  - rewrite view_refresh. rewrite <- (denv_refresh k s src).
+    destruct (tie_next_chunk_mut k s1 src out (S n) (wf_refresh k s Hwf)) as (r & d & R & G).
+    unfold d_get_workable_slice_exact. rewrite !pass_on. unfold drun in R. rewrite R. dm.
+    eexists _, _. split; [reflexivity|]. exact G.
+Qed.
+
+Theorem tie_peek_available :
+  exists r d, drun (d_peek_available E) (view k s out) = Some (r, d) /\ grant_res k s1 out (fresh k s) r d.
+Proof.
+  unfold d_peek_available, d_available, view. dm. cbn [denv_of dn_avail].
+  rewrite lift_avail by exact Hwf. dm.
+  rewrite view_refresh. rewrite <- (denv_refresh k s src).
+  destruct (tie_next_chunk k s1 src out (fresh k s) (wf_refresh k s Hwf)) as (r & d & R & G).
+  unfold d_peek_slice. rewrite !pass_on. unfold drun in R. rewrite R. dm.
+  eexists _, _. split; [reflexivity|]. exact G.
+Qed.
+
+(** [rhs = 0] panics (remainder by zero) after the fresh look, as the Model says ([OPanic]); otherwise: *)
+Theorem tie_get_workable_slice_multiple_of rhs : rhs <> 0 ->
+  exists r d, drun (d_get_workable_slice_multiple_of E rhs) (view k s out) = Some (r, d) /\
+    match fresh k s - fresh k s mod rhs with
+    | 0 => r = None /\ agrees k s1 [] [] d /\ d_out d = out
+    | S _ => grant_res k s1 out (fresh k s - fresh k s mod rhs) r d
+    end.
+Proof.
+  intros Hr. unfold d_get_workable_slice_multiple_of, d_available, view. dm. cbn [denv_of dn_avail].
+  rewrite lift_avail by exact Hwf. dm. unfold umod. destruct rhs as [|r']; [congruence|]. dm.
+  pose proof (Nat.mod_le (fresh k s) (S r') ltac:(lia)) as Hm.
+  rewrite lift_usub by exact Hm. dm.
+  destruct (fresh k s - fresh k s mod S r') eqn:F.
+  - dm. eexists _, _. split; [reflexivity|]. split; [reflexivity|]. split; [constructor; cbn; auto | reflexivity].
+  - rewrite view_refresh. rewrite <- (denv_refresh k s src).
+    destruct (tie_next_chunk_mut k s1 src out (S n) (wf_refresh k s Hwf)) as (r & d & R & G).
+    unfold d_get_workable_slice_exact. rewrite !pass_on. unfold drun in R. rewrite R. dm.
+    eexists _, _. split; [reflexivity|]. exact G.
+Qed.
+
+Theorem tie_multiple_of_zero_panics : drun (d_get_workable_slice_multiple_of E 0) (view k s out) = None.
+Proof.
+  unfold d_get_workable_slice_multiple_of, d_available, view. dm. cbn [denv_of dn_avail].
+  rewrite lift_avail by exact Hwf. dm. reflexivity.
+Qed.
+End AvailForms.
